@@ -1,14 +1,23 @@
 /-
   C09 — memory limits are honoured and memory estimates are upper bounds.
+  Only the property theorems and non-vacuity examples live here; helper lemmas are in Lemmas/Memusage.lean and
+  Lemmas/Memlimit.lean. The theorems quantify over every `Build` (sizeof table) that satisfies the inequalities
+  `Build.Ok`; `gen_build_ok` checks them for the table regenerated from the build under test.
 -/
 import XzVerif.Model.Memusage
 import XzVerif.Model.MemusageBuild
 import XzVerif.Model.Memlimit
 import XzVerif.Model.XzAdjust
+import XzVerif.Lemmas.Memusage
+import XzVerif.Lemmas.MemIndex
+import XzVerif.Lemmas.Memlimit
+import XzVerif.Lemmas.XzAdjust
 import XzVerif.Gen.C09
 
 namespace XzVerif.C09
 open XzVerif.Memusage
+
+/-! ## Bridge to the regenerated constants -/
 
 /-- The #defines the model hard-codes are the ones the source has today. -/
 theorem gen_constants :
@@ -19,6 +28,471 @@ theorem gen_constants :
     ∧ Gen.C09.lzma2ChunkMax = LZMA2_CHUNK_MAX ∧ Gen.C09.lzma2HeaderUncompressed = LZMA2_HEADER_UNCOMPRESSED
     ∧ Gen.C09.hash2Size = HASH_2_SIZE ∧ Gen.C09.hash3Size = HASH_3_SIZE ∧ Gen.C09.indexGroupSize = INDEX_GROUP_SIZE
     ∧ Gen.C09.compressedSizeMax = COMPRESSED_SIZE_MAX ∧ Gen.C09.headersBound = HEADERS_BOUND ∧ Gen.C09.blockSizeMax = BLOCK_SIZE_MAX
-    ∧ Gen.C09.sizeMax = UINT64_MAX ∧ Gen.C09.vliMax = VLI_MAX ∧ Gen.C09.outqBufsPerThread = 2 := by decide
+    ∧ Gen.C09.sizeMax = UINT64_MAX ∧ Gen.C09.vliMax = VLI_MAX ∧ Gen.C09.outqBufsPerThread = 2
+    ∧ Gen.C09.idLzma1 = ID_LZMA1 ∧ Gen.C09.idLzma1Ext = ID_LZMA1EXT ∧ Gen.C09.idLzma2 = ID_LZMA2 ∧ Gen.C09.idDelta = ID_DELTA
+    ∧ Gen.C09.idX86 = 4 ∧ Gen.C09.idPowerpc = 5 ∧ Gen.C09.idIa64 = 6 ∧ Gen.C09.idArm = 7 ∧ Gen.C09.idArmthumb = 8
+    ∧ Gen.C09.idSparc = 9 ∧ Gen.C09.idArm64 = 10 ∧ Gen.C09.idRiscv = 11
+    ∧ Gen.C09.mfHc3 = MF_HC3 ∧ Gen.C09.mfHc4 = MF_HC4 ∧ Gen.C09.mfBt2 = MF_BT2 ∧ Gen.C09.mfBt3 = MF_BT3 ∧ Gen.C09.mfBt4 = MF_BT4
+    ∧ Gen.C09.modeFast = MODE_FAST ∧ Gen.C09.modeNormal = MODE_NORMAL
+    ∧ Gen.C09.retOk = 0 ∧ Gen.C09.retStreamEnd = 1 ∧ Gen.C09.retMemlimitError = 6 ∧ Gen.C09.retFormatError = 7
+    ∧ Gen.C09.retOptionsError = 8 ∧ Gen.C09.retDataError = 9 ∧ Gen.C09.retBufError = 10 ∧ Gen.C09.retProgError = 11 := by decide
+
+/-- The struct sizes of the build under test satisfy what the estimate functions assume
+    (fixed overheads fit in LZMA_MEMUSAGE_BASE, a BCJ coder fits in 1 KiB). -/
+theorem gen_build_ok : thisBuild.Ok := by
+  constructor <;> decide
+
+/-! ## Estimates are upper bounds: decoders -/
+
+/-- Everything `lzma_raw_decoder_init` requests from the allocator — for ANY filter chain and also when it fails half
+    way — is at most `lzma_raw_decoder_memusage()` of that chain, whenever the latter is not UINT64_MAX.
+    (The 4 KiB minimum and the 16-byte rounding of the dictionary, which the estimate ignores, are absorbed by
+    LZMA_MEMUSAGE_BASE.) -/
+theorem decoder_alloc_le_estimate (b : Build) (hb : b.Ok) (fs : List Filter) (m : Nat)
+    (hm : rawDecoderMemusage b fs = some m) : (rawDecoderInit b fs).2.sum ≤ m := by
+  unfold rawDecoderMemusage rawCoderMemusage at hm
+  split at hm
+  · rename_i hok
+    cases hs : sumOpt (fs.map (filterDecMemusage b)) with
+    | none => simp [hs] at hm
+    | some total =>
+      simp only [hs, Option.some.injEq] at hm
+      have hlen := chainOk_length hok
+      have h1 := sumOpt_map_allocs_le (filterDecMemusage b) (filterDecAllocs b) 4096
+        (fun f u h => filterDecAllocs_le b hb.bcj f u h) fs total hs
+      have h2 := rawDecInitTrace_sum_le b fs
+      unfold rawDecoderInit
+      simp only [rawDecoderAllocs] at h2
+      have : 4096 * fs.length ≤ MEMUSAGE_BASE := by
+        simp only [FILTERS_MAX] at hlen
+        simp only [MEMUSAGE_BASE]; omega
+      split
+      · simp
+      · split
+        · simp
+        · omega
+  · cases hm
+
+/-- The allocation list of a chain whose filters all initialise successfully is what the initialisation requests. -/
+theorem rawDecoderInit_ok_allocs (b : Build) (fs : List Filter) (h : (rawDecInitTrace b fs).1 = 0) :
+    (rawDecInitTrace b fs).2 = rawDecoderAllocs b fs := by
+  induction fs with
+  | nil => simp [rawDecInitTrace, rawDecoderAllocs]
+  | cons f rest ih =>
+    simp only [rawDecInitTrace] at h ⊢
+    split at h
+    · rename_i hne; simp at h; exact absurd h hne
+    · rename_i hne
+      simp only [hne, ↓reduceIte, rawDecoderAllocs, List.map_cons, List.flatten_cons] at h ⊢
+      rw [ih h]; rfl
+
+/-! ## Estimates are upper bounds: encoders -/
+
+/-- Full-strength statement: everything `lzma_raw_encoder_init` requests is at most `lzma_raw_encoder_memusage()`.
+    It is FALSE for the code as it is (see `encoder_estimate_counterexample`): `lzma2_encoder_init` enlarges
+    `before_size` for dictionaries below LZMA2_CHUNK_MAX - OPTS = 60 KiB, `lzma_lzma2_encoder_memusage` does not. -/
+def encoder_alloc_le_estimate_statement : Prop :=
+  ∀ (b : Build), b.Ok → ∀ (fs : List Filter) (m : Nat), rawEncoderMemusage b fs = some m → (rawEncoderInit b fs).2.sum ≤ m
+
+/-- What holds: the statement for every chain whose LZMA2 filter (if any) has a dictionary of at least 60 KiB
+    (LZMA1 chains, BCJ and delta filters are unrestricted). Missing for the full statement: LZMA2 with
+    `dict_size < LZMA2_CHUNK_MAX - OPTS`, where the code really under-reports (known finding
+    C09:lzma2-encoder-memusage-small-dict). -/
+theorem encoder_alloc_le_estimate_partial (b : Build) (hb : b.Ok) (fs : List Filter) (m : Nat)
+    (hm : rawEncoderMemusage b fs = some m) (hd : ∀ f ∈ fs, lzma2DictBigEnough f) :
+    (rawEncoderInit b fs).2.sum ≤ m := by
+  unfold rawEncoderMemusage rawCoderMemusage at hm
+  split at hm
+  · rename_i hok
+    cases hs : sumOpt (fs.map (filterEncMemusage b)) with
+    | none => simp [hs] at hm
+    | some total =>
+      simp only [hs, Option.some.injEq] at hm
+      have hlen := chainOk_length hok
+      have hs' : sumOpt (fs.reverse.map (filterEncMemusage b)) = some total := by
+        rw [List.map_reverse, sumOpt_reverse]; exact hs
+      have h1 := rawEncInitTrace_le b hb.bcj fs.reverse total hs' (fun f hf => hd f (List.mem_reverse.mp hf))
+      have hx := hb.xzEnc
+      unfold rawEncoderInit
+      have : b.memcmplenExtra * fs.reverse.length ≤ MEMUSAGE_BASE := by
+        simp only [FILTERS_MAX] at hlen
+        simp only [List.length_reverse]
+        have : b.memcmplenExtra * fs.length ≤ b.memcmplenExtra * 4 := Nat.mul_le_mul_left _ hlen
+        have h4 := hb.encSlack
+        omega
+      split
+      · simp
+      · split
+        · simp
+        · omega
+  · cases hm
+
+/-- The counterexample on this build: LZMA2 encoder, 4 KiB dictionary, bt4, nice 64: the estimate is 1452555 bytes,
+    the initialisation requests 1505811 bytes. -/
+theorem encoder_estimate_counterexample :
+    rawEncoderMemusage thisBuild [.lzma2 { dict := 4096 }] = some 1452555
+    ∧ (rawEncoderInit thisBuild [.lzma2 { dict := 4096 }]).2.sum = 1505811 := by
+  constructor <;> decide +kernel
+
+theorem encoder_alloc_le_estimate_statement_false : ¬ encoder_alloc_le_estimate_statement := by
+  intro h
+  have h1 := h thisBuild gen_build_ok [.lzma2 { dict := 4096 }] 1452555 encoder_estimate_counterexample.1
+  rw [encoder_estimate_counterexample.2] at h1
+  omega
+
+/-! ## Estimates are upper bounds: lzma_index -/
+
+/-- An index built by `lzma_index_init` and `n` calls of `lzma_index_append` (the encoders, or an application): the
+    bytes allocated (base struct, Stream, ceil(n/512) groups of 512 Records) never exceed
+    `lzma_index_memusage(1, n)`, and the index holds exactly `n` Records. -/
+theorem index_alloc_le_memusage (b : Build) (n m : Nat) (hm : indexMemusage b 1 n = some m) :
+    (Idx.appendN b n Idx.init).1.liveBytes b ≤ m ∧ (Idx.appendN b n Idx.init).1.blocks = n := by
+  have hinv := appendN_inv b n Idx.init 0 init_inv
+  obtain ⟨s, hs, _, hsi⟩ := hinv
+  rw [Nat.zero_add] at hsi
+  obtain ⟨hlen, hbytes, hblocks⟩ := sinv_facts b s n hsi
+  simp only [Idx.liveBytes, Idx.blocks, hs, List.map_cons, List.map_nil, List.sum_cons, List.sum_nil, streamBytes, hbytes,
+    hblocks, Nat.add_zero, and_true]
+  simp only [indexMemusage] at hm
+  split at hm
+  · cases hm
+  · simp only [Option.some.injEq] at hm
+    subst hm
+    rw [← hlen]
+    have : s.length * (b.szIndexGroup + INDEX_GROUP_SIZE * b.szIndexRecord)
+        ≤ s.length * (b.szIndexGroup + INDEX_GROUP_SIZE * b.szIndexRecord + 4 * b.szVoidPtr) :=
+      Nat.mul_le_mul_left _ (Nat.le_add_right _ _)
+    omega
+
+/-- The Index decoder preallocates exactly the announced number of Records (`lzma_index_prealloc(count)`): one group of
+    `n` Records, which is again below `lzma_index_memusage(1, n)` — the amount SEQ_MEMUSAGE compared with the limit. -/
+theorem index_decoder_alloc_le_memusage (b : Build) (n m : Nat) (hn : 0 < n) (hm : indexMemusage b 1 n = some m) :
+    b.szIndex + b.szIndexStream + (b.szIndexGroup + n * b.szIndexRecord) ≤ m := by
+  simp only [indexMemusage] at hm
+  split at hm
+  · cases hm
+  · simp only [Option.some.injEq] at hm
+    subst hm
+    have hg : 1 ≤ (n + INDEX_GROUP_SIZE - 1) / INDEX_GROUP_SIZE := by simp only [INDEX_GROUP_SIZE]; omega
+    have hn' : n ≤ (n + INDEX_GROUP_SIZE - 1) / INDEX_GROUP_SIZE * INDEX_GROUP_SIZE := by simp only [INDEX_GROUP_SIZE]; omega
+    have h1 : n * b.szIndexRecord ≤ (n + INDEX_GROUP_SIZE - 1) / INDEX_GROUP_SIZE * INDEX_GROUP_SIZE * b.szIndexRecord :=
+      Nat.mul_le_mul_right _ hn'
+    generalize (n + INDEX_GROUP_SIZE - 1) / INDEX_GROUP_SIZE = g at *
+    have h2 : g * (b.szIndexGroup + INDEX_GROUP_SIZE * b.szIndexRecord + 4 * b.szVoidPtr)
+        = g * b.szIndexGroup + g * INDEX_GROUP_SIZE * b.szIndexRecord + g * (4 * b.szVoidPtr) := by
+      rw [Nat.mul_add, Nat.mul_add, Nat.mul_assoc]
+    have h3 : b.szIndexGroup ≤ g * b.szIndexGroup := Nat.le_mul_of_pos_left _ hg
+    omega
+
+/-- Full-strength statement for every history of init / append / cat: bytes allocated ≤ `lzma_index_memused()`.
+    FALSE for the code as it is: after `lzma_index_cat` every Stream can own a partly used group of full size, while
+    the formula counts only ceil(total Records / 512) full groups plus one bare group header per Stream (known finding
+    C09:index-memused-after-cat; `index_cat_counterexample`). -/
+def index_cat_alloc_le_memusage_statement : Prop :=
+  ∀ (b : Build), b.Ok → ∀ (n1 n2 : Nat) (m : Nat),
+    let d := ((Idx.appendN b n1 Idx.init).1.cat b (Idx.appendN b n2 Idx.init).1).1
+    indexMemusage b d.streams.length d.blocks = some m → d.liveBytes b ≤ m
+
+/-- 1000 Records, then cat of an index with 513 Records: 33056 bytes stay allocated, `lzma_index_memused` = 25568. -/
+theorem index_cat_counterexample :
+    let d := ((Idx.appendN thisBuild 1000 Idx.init).1.cat thisBuild (Idx.appendN thisBuild 513 Idx.init).1).1
+    d.streams.length = 2 ∧ d.blocks = 1513 ∧ indexMemusage thisBuild 2 1513 = some 25568
+    ∧ d.liveBytes thisBuild = 33056 := by
+  decide +kernel
+
+theorem index_cat_alloc_le_memusage_statement_false : ¬ index_cat_alloc_le_memusage_statement := by
+  intro h
+  have hc := index_cat_counterexample
+  simp only at hc
+  have h1 := h thisBuild gen_build_ok 1000 513 25568
+  simp only [hc.1, hc.2.1] at h1
+  have h2 := h1 hc.2.2.1
+  rw [hc.2.2.2] at h2
+  omega
+
+/-! ## Memory limits: SEQ_BLOCK_INIT of the .xz Stream decoder -/
+
+open XzVerif.Memlimit
+
+/-- The limit is compared BEFORE anything of the Block's filter chain is allocated: when the estimate of the chain exceeds
+    the limit, SEQ_BLOCK_INIT returns LZMA_MEMLIMIT_ERROR, records the needed amount (what `lzma_memusage()` then
+    returns), performs no allocation at all (the request list is unchanged; only the filter options decoded from the
+    header are freed), keeps the coders of earlier Blocks as they are and leaves the limit alone. -/
+theorem memlimit_no_alloc_beyond (b : Build) (c : Core) (opt : Nat) (fs : List Filter) (m : Nat)
+    (hm : rawDecoderMemusage b fs = some m) (hgt : m > c.memlimit) :
+    ∃ c', blockInit b c opt fs = (.memlimit, c') ∧ c'.memusage = m ∧ c'.memlimit = c.memlimit
+      ∧ c'.heap.reqs = c.heap.reqs ∧ c'.heap.peak = c.heap.peak ∧ c'.chain = c.chain ∧ c'.blockAlloc = c.blockAlloc := by
+  refine ⟨{ c with memusage := m, heap := c.heap.free opt }, ?_, rfl, rfl, rfl, rfl, rfl, rfl⟩
+  simp [blockInit, hm, hgt]
+
+/-- Conversely a Block decoder is only ever initialised for a chain whose estimate is within the limit, and that
+    estimate is what `lzma_memusage()` reports afterwards. -/
+theorem block_init_within_limit (b : Build) (c : Core) (opt : Nat) (fs : List Filter) (k : Nat) (c' : Core)
+    (h : blockInit b c opt fs = (.done k, c')) (hk : k ≠ 8) :
+    rawDecoderMemusage b fs = some c'.memusage ∧ c'.memusage ≤ c.memlimit ∧ c'.memlimit = c.memlimit := by
+  simp only [blockInit] at h
+  cases hm : rawDecoderMemusage b fs with
+  | none => simp [hm] at h; exact absurd h.1.symm hk
+  | some m =>
+    simp only [hm] at h
+    by_cases hgt : m > c.memlimit
+    · simp [hgt] at h
+    · simp only [hgt, ↓reduceIte] at h
+      cases hbs : blockInitScript b c.blockAlloc c.chain fs with
+      | mk r rest =>
+        cases rest with
+        | mk ops ch =>
+          simp only [hbs, Prod.mk.injEq, InitResult.done.injEq] at h
+          obtain ⟨_, hc⟩ := h
+          subst hc
+          exact ⟨rfl, by simp; omega, rfl⟩
+
+/-- Restartability of SEQ_BLOCK_INIT (any Block Header `hdr`, any script of `lzma_memlimit_set` calls): if the run
+    that starts with a too small limit, gets LZMA_MEMLIMIT_ERROR (possibly several times) and has its limit raised by
+    the application finally leaves the step with a code `k` other than LZMA_MEMLIMIT_ERROR, then a decoder in the same
+    situation whose limit is never the obstacle leaves it with the same code, with the same coders allocated and the
+    same number of live bytes. (`k ≠ 11` only excludes running out of the model's fuel.) -/
+theorem memlimit_restartable (b : Build) (check : Nat) (hdr : List UInt8) (fuel : Nat) (r r' : Run) (k : Nat)
+    (h : blockInitLoop b check hdr fuel r = (k, r')) (h6 : k ≠ 6) (h11 : k ≠ 11)
+    (cu cu' : Core) (ku : Nat) (hsim : Core.Sim r.core cu) (hu : blockAttempt b check hdr cu = (.done ku, cu')) :
+    k = ku ∧ r'.core.chain = cu'.chain ∧ r'.core.heap.live = cu'.heap.live ∧ r'.core.blockAlloc = cu'.blockAlloc := by
+  have := retryLoop_transparent Core.Sim (blockAttempt b check hdr) (blockAttempt_restartable b check hdr)
+    fuel r k r' h h6 h11 cu ku cu' hsim hu
+  exact ⟨this.1, this.2.2.1, this.2.1, this.2.2.2⟩
+
+/-- The same for SEQ_CODER_INIT of the .lzma and .lz decoders … -/
+theorem memlimit_restartable_coder (b : Build) (o : LzmaOpts) (fuel : Nat) (r r' : Run) (k : Nat)
+    (h : coderInitLoop b o fuel r = (k, r')) (h6 : k ≠ 6) (h11 : k ≠ 11)
+    (cu cu' : Core) (ku : Nat) (hsim : Core.SimU r.core cu) (hu : coderAttempt b o cu = (.done ku, cu')) :
+    k = ku ∧ r'.core.chain = cu'.chain ∧ r'.core.heap.live = cu'.heap.live ∧ r'.core.memusage = cu'.memusage := by
+  have := retryLoop_transparent Core.SimU (coderAttempt b o) (coderAttempt_restartable b o)
+    fuel r k r' h h6 h11 cu ku cu' hsim hu
+  exact ⟨this.1, this.2.1.2.1, this.2.1.1, this.2.2⟩
+
+/-- … and for SEQ_MEMUSAGE of the Index decoder. -/
+theorem memlimit_restartable_index (fuel : Nat) (r r' : Run) (k : Nat)
+    (h : retryLoop indexAttempt fuel r = (k, r')) (h6 : k ≠ 6) (h11 : k ≠ 11)
+    (cu cu' : Core) (ku : Nat) (hsim : Core.SimU r.core cu) (hu : indexAttempt cu = (.done ku, cu')) :
+    k = ku ∧ r'.core.heap.live = cu'.heap.live ∧ r'.core.memusage = cu'.memusage := by
+  have := retryLoop_transparent Core.SimU indexAttempt indexAttempt_restartable fuel r k r' h h6 h11 cu ku cu' hsim hu
+  exact ⟨this.1, this.2.1.1, this.2.2⟩
+
+/-- The .lzma / .lz decoders allocate the LZMA1 decoder only when the recorded estimate is within the limit. -/
+theorem coder_init_within_limit (b : Build) (o : LzmaOpts) (c c' : Core) (k : Nat)
+    (h : coderAttempt b o c = (.done k, c')) : c.memusage ≤ c.memlimit := by
+  simp only [coderAttempt] at h
+  by_cases hgt : c.memusage > c.memlimit
+  · simp [hgt] at h
+  · omega
+
+/-! ## lzma_memlimit_set -/
+
+/-- `lzma_memlimit_set(strm, v)` on the stream / .lzma / .lz / index decoders: 0 means 1; a value below the current
+    `lzma_memusage()` is rejected with LZMA_MEMLIMIT_ERROR and the limit stays what it was; any other value becomes
+    the limit. -/
+theorem memconfig_rejects_low (usage limit v : Nat) :
+    ((if v = 0 then 1 else v) < usage → memlimitSet usage limit v = (6, limit))
+    ∧ (usage ≤ (if v = 0 then 1 else v) → memlimitSet usage limit v = (0, if v = 0 then 1 else v)) := by
+  constructor <;> intro h <;> simp only [memlimitSet]
+  · simp [h]
+  · have : ¬ ((if v = 0 then 1 else v) < usage) := by omega
+    simp [this]
+
+theorem memlimitSet_accepted (usage limit v l : Nat) (h : memlimitSet usage limit v = (0, l)) : usage ≤ l := by
+  simp only [memlimitSet] at h
+  by_cases hlt : (if v = 0 then 1 else v) < usage
+  · simp [hlt] at h
+  · simp only [hlt, ↓reduceIte, Prod.mk.injEq, true_and] at h
+    omega
+
+/-- After a token script the limit is only ever replaced by an accepted value, which is at least the usage. -/
+theorem trySets_accepts_only_sufficient (usage : Nat) : ∀ (sets : List SetTok) (limit : Nat) (evs : List (Nat × Nat × Nat))
+    (l : Nat) (rest : List SetTok), trySets usage limit sets = (evs, some l, rest) → usage ≤ l := by
+  intro sets
+  induction sets with
+  | nil => intro limit evs l rest h; simp [trySets] at h
+  | cons t ts ih =>
+    intro limit evs l rest h
+    simp only [trySets] at h
+    cases hms : memlimitSet usage limit (t.value usage) with
+    | mk r l' =>
+      simp only [hms] at h
+      by_cases hr0 : r = 0
+      · subst hr0
+        simp only [↓reduceIte, Prod.mk.injEq, Option.some.injEq] at h
+        obtain ⟨_, h2, _⟩ := h
+        subst h2
+        exact memlimitSet_accepted usage limit _ _ hms
+      · simp only [hr0, ↓reduceIte] at h
+        cases hr : trySets usage limit ts with
+        | mk ev2 r2 =>
+          cases r2 with
+          | mk res2 rem2 =>
+            simp only [hr, Prod.mk.injEq] at h
+            obtain ⟨_, h2, _⟩ := h
+            subst h2
+            exact ih limit ev2 l rem2 hr
+
+/-! ## Threaded decoder (no worker-thread schedules: the limit checks only) -/
+
+/-- `memlimit_stop` is never exceeded by the estimate of a Block that gets decoded: SEQ_BLOCK_INIT passes only when
+    the chain's estimate is at most the (possibly raised) limit; and threaded mode is chosen only when filters, input
+    buffer and output buffer together fit `memlimit_threading` (otherwise direct mode, which is guarded by
+    `memlimit_stop` alone). -/
+theorem mt_threading_limit (b : Build) (m check : Nat) (cs us : Option Nat) :
+    ∀ (fuel : Nat) (r r' : MtRun), mtBlockInitLoop b m check cs us fuel r = (0, r') → m ≤ r'.core.memlimitStop := by
+  intro fuel
+  induction fuel with
+  | zero => intro r r' h; simp [mtBlockInitLoop] at h
+  | succ fuel ih =>
+    intro r r' h
+    simp only [mtBlockInitLoop] at h
+    by_cases hgt : m > r.core.memlimitStop
+    · simp only [hgt, ↓reduceIte] at h
+      cases hh : mtHandleMemlimit r with
+      | mk r2 ok =>
+        simp only [hh] at h
+        cases ok with
+        | false => simp at h
+        | true => simp only [↓reduceIte] at h; exact ih r2 r' h
+    · simp only [hgt, ↓reduceIte] at h
+      split at h <;> (simp only [Prod.mk.injEq, true_and] at h; subst h; simp; omega)
+
+theorem mt_threaded_only_within_threading_limit (b : Build) (c : MtCore) (m check cs us : Nat)
+    (h : mtThreaded b c m check (some cs) (some us) = true) :
+    m + (Container.ceil4 cs + Container.checkSize check + outbufMemusage b us) ≤ c.memlimitThreading := by
+  simp only [mtThreaded] at h
+  split at h
+  · simp at h
+  · split at h
+    · simp at h
+    · simpa using h
+
+/-- Full statement wanted by the property for the threaded decoder: after LZMA_MEMLIMIT_ERROR `lzma_memusage()` tells
+    the needed amount. FALSE for the code as it is (known finding C09:mtdec-memusage-after-memlimit-error): the model,
+    like the code, reports `max(mem_direct_mode, LZMA_MEMUSAGE_BASE)`. -/
+def mt_memusage_reports_needed_statement : Prop :=
+  ∀ (c : MtCore) (m : Nat), m > c.memlimitStop → c.memusage ≥ m
+
+theorem mt_memusage_reports_needed_statement_false : ¬ mt_memusage_reports_needed_statement := by
+  intro h
+  have := h (MtCore.init 0 1000) 8454808 (by decide)
+  revert this
+  decide
+
+/-! ## xz: coder_set_compression_settings -/
+
+open XzVerif.XzAdjust
+
+/-- Soundness of xz's automatic adjustment. Whenever `coder_set_compression_settings` returns instead of failing:
+    * the limit it enforced is the configured one (--memlimit-compress, or the -T0 default for multithreaded mode);
+    * the memory usage of the FINAL settings — `lzma_stream_encoder_mt_memusage` with the final thread count and Block
+      size when still multithreaded, else `lzma_raw_encoder_memusage` of every chain — is within that limit, unless
+      the limit was only the automatic default for -T0 (soft), in which case exactly one thread is left;
+    * the number of threads only went down (never below 1);
+    * the chains are unchanged except that an LZMA1/LZMA2 dictionary may have shrunk, never below 1 MiB. -/
+theorem xz_adjust_sound (b : Build) (c : Config) (hthr : 1 ≤ c.threads)
+    (t : Nat) (mt : Bool) (cs : List (Nat × List Filter)) (usage limit : Nat) (soft : Bool) (msgs : List String)
+    (h : coderSetCompressionSettings b c = .ok t mt cs usage limit soft msgs) :
+    limit = (if isMtPath c then mtencGet c else memlimitGet c)
+    ∧ (soft = false → usage ≤ limit)
+    ∧ (soft = true → mtencIsDefault c = true ∧ t = 1 ∧ mt = true)
+    ∧ t ≤ c.threads ∧ 1 ≤ t
+    ∧ Forall2 ChainLe cs c.chains
+    ∧ (c.mode = .compress → ∃ bs, (mt = true → mtBlockSizeFor c = some bs) ∧ usage = usageOf b mt t bs cs) := by
+  simp only [coderSetCompressionSettings] at h
+  by_cases hmt : isMtPath c
+  · simp only [hmt, ↓reduceIte] at h ⊢
+    cases hbs : mtBlockSizeFor c with
+    | none => simp [hbs] at h
+    | some bs =>
+      simp only [hbs] at h
+      cases hu0 : maxOpt (mtUsages b c.threads bs c.chains) with
+      | none => simp [hu0] at h
+      | some usage0 =>
+        simp only [hu0] at h
+        by_cases hle : usage0 ≤ mtencGet c
+        · simp only [hle, ↓reduceIte, Outcome.ok.injEq] at h
+          obtain ⟨h1, h2, h3, h4, h5, h6, _⟩ := h
+          subst h1; subst h2; subst h3; subst h4; subst h5; subst h6
+          refine ⟨rfl, fun _ => hle, by simp, Nat.le_refl _, hthr, forall2_refl _, fun _ => ⟨bs, fun _ => rfl, ?_⟩⟩
+          simp [usageOf, hu0]
+        · simp only [hle, ↓reduceIte, stageMt] at h
+          cases hrt : reduceThreads b bs c.chains (mtencGet c) c.threads with
+          | inl res =>
+            cases res with
+            | none => simp [hrt] at h
+            | some tu =>
+              obtain ⟨t', u⟩ := tu
+              simp only [hrt, Outcome.ok.injEq] at h
+              obtain ⟨h1, h2, h3, h4, h5, h6, _⟩ := h
+              subst h1; subst h2; subst h3; subst h4; subst h5; subst h6
+              have sp := reduceThreads_inl b bs c.chains (mtencGet c) c.threads t' u hrt
+              refine ⟨rfl, fun _ => sp.2.2.1, by simp, by omega, sp.2.1, forall2_refl _, fun _ => ⟨bs, fun _ => rfl, ?_⟩⟩
+              simp only [usageOf, ↓reduceIte]; exact sp.2.2.2
+          | inr u1 =>
+            simp only [hrt] at h
+            have sp := reduceThreads_inr b bs c.chains (mtencGet c) c.threads u1 hthr hrt
+            by_cases hdef : mtencIsDefault c
+            · simp only [hdef, ↓reduceIte, Outcome.ok.injEq] at h
+              obtain ⟨h1, h2, h3, h4, h5, h6, _⟩ := h
+              subst h1; subst h2; subst h3; subst h4; subst h5; subst h6
+              refine ⟨rfl, by simp, fun _ => ⟨hdef, rfl, rfl⟩, hthr, Nat.le_refl _, forall2_refl _, fun _ => ⟨bs, fun _ => rfl, ?_⟩⟩
+              simp only [usageOf, ↓reduceIte]; exact sp
+            · simp only [hdef, Bool.false_eq_true, ↓reduceIte] at h
+              by_cases ha : c.autoAdjust
+              · simp only [ha, Bool.not_true, Bool.false_eq_true, ↓reduceIte] at h
+                have sa := stageAdjust_spec b c (mtencGet c) 1 _ _ ["S"] rfl rfl t mt cs usage limit soft msgs h
+                obtain ⟨s1, s2, s3, s4, s5, s6, s7⟩ := sa
+                subst s1; subst s2; subst s3; subst s4
+                refine ⟨rfl, fun _ => s5, by simp, hthr, Nat.le_refl _, s6, fun _ => ⟨0, by simp, s7⟩⟩
+              · simp [ha] at h
+  · simp only [hmt, Bool.false_eq_true, ↓reduceIte] at h ⊢
+    split at h
+    · simp at h
+    · rename_i usage0 hu0
+      by_cases hle : usage0 ≤ memlimitGet c
+      · simp only [hle, ↓reduceIte, Outcome.ok.injEq] at h
+        obtain ⟨h1, h2, h3, h4, h5, h6, _⟩ := h
+        subst h1; subst h2; subst h3; subst h4; subst h5; subst h6
+        refine ⟨rfl, fun _ => hle, by simp, Nat.le_refl _, hthr, forall2_refl _, fun hc => ⟨0, by simp, ?_⟩⟩
+        simp only [hc, ↓reduceIte] at hu0
+        simp only [usageOf, Bool.false_eq_true, ↓reduceIte]
+        exact (maxOpt_listMax _ _ hu0).symm
+      · simp only [hle, ↓reduceIte] at h
+        by_cases hraw : c.format = Format.raw
+        · simp [hraw] at h
+        · simp only [hraw, ↓reduceIte] at h
+          by_cases hc : c.mode = Mode.compress
+          · simp only [hc, ne_eq, not_true_eq_false, ↓reduceIte] at h hu0
+            have sa := stageAdjust_spec b c (memlimitGet c) c.threads _ usage0 [] rfl
+              (maxOpt_listMax _ _ hu0).symm t mt cs usage limit soft msgs h
+            obtain ⟨s1, s2, s3, s4, s5, s6, s7⟩ := sa
+            subst s1; subst s2; subst s3; subst s4
+            exact ⟨rfl, fun _ => s5, by simp, Nat.le_refl _, hthr, s6, fun _ => ⟨0, by simp, s7⟩⟩
+          · simp [hc] at h
+
+/-! ## Non-vacuity -/
+
+/-- A valid chain with all four slots used; its estimate on this build. -/
+example : rawDecoderMemusage thisBuild [.delta (some 1), .bcj 4 none, .bcj 6 (some 16), .lzma2 { dict := 8388608 }]
+    = some 8457208 := by decide +kernel
+
+/-- SEQ_BLOCK_INIT with limit 1: LZMA_MEMLIMIT_ERROR; after `lzma_memlimit_set(needed)` the same step succeeds. -/
+example :
+    let c : Core := { memlimit := 1, memusage := MEMUSAGE_BASE, heap := {} }
+    let fs : List Filter := [.lzma2 { dict := 8388608 }]
+    (blockInit thisBuild c 112 fs).1 = .memlimit
+    ∧ (blockInit thisBuild { c with memlimit := 8454808 } 112 fs).1 = .done 0 := by decide +kernel
+
+/-- xz -9 -T4 --memlimit-compress=100MiB: switch to one thread, then shrink the dictionary from 64 MiB to 8 MiB. -/
+example :
+    (match coderSetCompressionSettings thisBuild
+        { mode := .compress, format := .xz, threads := 4, isMt := true, threadsAuto := false,
+          memlimitCompress := 104857600, memlimitDecompress := 0, memlimitMtDefault := 0, autoAdjust := true,
+          blockSize := 0, blockListLargest := 0,
+          chains := [(0, [.lzma2 { dict := 67108864, mode := 2, nice := 64, mf := 0x14 }])] } with
+     | .ok t mt cs _ _ _ _ => (t, mt, cs.map (fun p => chainDict p.2))
+     | .fatal _ _ => (0, true, [])) = (1, false, [some 8388608]) := by decide +kernel
 
 end XzVerif.C09
